@@ -10,8 +10,12 @@
                                          ([effect_sequenced] false: some argument or codata binding
                                          has an effect, so the order of effects is not fixed by the
                                          source semantics),
-        VIOL class=mistyped-goto-unbound when the Core run is stuck on an unbound (co)variable and the
-                                         source has a goto whose annotation differs from its label's type,
+        VIOL class=mistyped-goto-unbound (REPAIRED in /repo by 126604b, no longer a known finding: a
+                                         recurrence is a plain VIOLATION; the tag only describes it)
+                                         when the Core run is stuck on an identifier that is unbound or bound
+                                         to a value of the wrong kind (the spurious parameter picks up an
+                                         unrelated variable of the same name) and the source has a goto
+                                         whose annotation differs from its label's type,
         VIOL class=capture-under-binder  when the syntactic detector [shadowing_risk] fires on the source,
         VIOL class=semantic-mismatch     otherwise.  Tuples on which the source run
       does not end in a normal exit within the fuel (undefined arithmetic, stuck, out of fuel) are
@@ -39,6 +43,7 @@ Definition show_args (a : list Z) : string := show (L (map sZ a)).
 Definition is_unbound (o : obs) : bool :=
   match snd o with
   | OStuck w => String.eqb w "covar-unbound" || String.eqb w "var-unbound"
+                || String.eqb w "covar-kind" || String.eqb w "var-kind"
   | _ => false
   end.
 Fixpoint sem_compare (p : fcprog) (c : cprog) (tuples : list (list Z)) (ncmp : nat) : sum (string * bool) nat :=
@@ -68,6 +73,7 @@ Definition fun2core_tags (p : fcprog) (ncmp : nat) (has_exp : bool) : string :=
   "nt" ++ (if shadowing_risk_prog p then " shadow-risk" else " no-shadow")
        ++ (if effect_sequenced p then " sequenced" else " unsequenced")
        ++ (if has_exp then " expected-ok" else "")
+       ++ (if main_in_fragment p then " proved-fragment" else "")
        ++ " cmp" ++ n_to_string (N.of_nat ncmp)
        ++ " size" ++ n_to_string (N.log2 (size_fcprog p)).
 
@@ -75,7 +81,9 @@ Fixpoint ends_with (suffix s : string) : bool :=
   String.eqb suffix s || match s with EmptyString => false | String _ r => ends_with suffix r end.
 (* the witness of the theorem fun2core_capture_refuted is the real checked form of capture1.sc *)
 Definition witness_ok (name : string) (p : fcprog) : bool :=
-  if ends_with "corpus/fun/capture1.sc" name then fcprog_eqb p capture_witness else true.
+  if ends_with "corpus/fun/capture1.sc" name then fcprog_eqb p capture_witness
+  else if ends_with "corpus/fun/c02_unbound_covar.sc" name then fcprog_eqb p goto_witness
+  else true.
 
 Definition fun2core_case (i r : sexp) : verdict :=
   match i with
@@ -86,7 +94,7 @@ Definition fun2core_case (i r : sexp) : verdict :=
           | Some why => VBad why
           | None =>
               if negb (witness_ok name p)
-              then VBad ("capture_witness (Model/Fun2Core.v) differs from the checked program of " ++ name ++ ": " ++ show (s_fcprog p))
+              then VBad ("the witness value in Model/Fun2Core.v differs from the checked program of " ++ name ++ ": " ++ show (s_fcprog p))
               else
               let m := compile_prog p in
               match r with
@@ -103,8 +111,8 @@ Definition fun2core_case (i r : sexp) : verdict :=
                       | inl (what, core_unbound) =>
                           if negb (effect_sequenced p) then VSkip ("unsequenced-mismatch " ++ name ++ " " ++ what)
                           else
-                          VViol ((if core_unbound && goto_type_mismatch_prog p then "class=mistyped-goto-unbound " else
-                                  if shadowing_risk_prog p then "class=capture-under-binder " else
+                          VViol ((if shadowing_risk_prog p then "class=capture-under-binder " else
+                                  if core_unbound && goto_type_mismatch_prog p then "class=mistyped-goto-unbound " else
                                   "class=semantic-mismatch ")
                                  ++ name ++ " " ++ what)
                       | inr ncmp =>
